@@ -1,5 +1,6 @@
 From Coq Require Import List Bool Arith PArith FMapPositive.
-From GS Require Import Base.Code Base.Lts Launch.SyncLts.
+From GS Require Import Base.Code Base.Lts.
+From GS Require Import Launch.SyncLts.
 Import ListNotations.
 
 Definition SR (u s e : bool) := reach sst (sinit u s e) snext.
@@ -20,7 +21,12 @@ Definition sinv (s : sst) : bool :=
    | _ => true
    end) &&
   (* without the early-return configurations, success is returned only once the exec has succeeded *)
-  (match y_par s with PDoneOk => y_early s || y_ran s | _ => true end).
+  (match y_par s with PDoneOk => y_early s || y_ran s | _ => true end) &&
+  (* the launcher died: a child blocked on the socket is woken by the end of file (it is never left waiting) *)
+  (match y_par s, y_kid s with
+   | PCrashed, KUserWait | PCrashed, KSyncWait => match kid_steps s with [] => false | _ => true end
+   | _, _ => true
+   end).
 
 Definition SV (u s e : bool) := explore sst senc snext 60 (sinit u s e).
 
@@ -35,6 +41,7 @@ Qed.
 
 Ltac split_inv H :=
   unfold sinv in H;
+  apply andb_true_iff in H; destruct H as [H ?I5];
   apply andb_true_iff in H; destruct H as [H ?I4];
   apply andb_true_iff in H; destruct H as [H ?I3];
   apply andb_true_iff in H; destruct H as [?I1 ?I2].
@@ -68,6 +75,17 @@ Qed.
 Theorem success_means_execed u s e x : SR u s e x -> y_early x = false -> y_par x = PDoneOk -> y_ran x = true.
 Proof.
   intros Hr He Hp. pose proof (sinv_reach u s e x Hr) as H. split_inv H. rewrite Hp, He in I4. exact I4.
+Qed.
+
+(** the launcher dies at any moment after the clone (nobody kills or reaps the child then): the target is still never
+    exec'ed without the approval having been sent, and a child waiting on the socket is not left waiting *)
+Theorem launcher_death u s e x : SR u s e x -> y_par x = PCrashed ->
+  (y_acked x = false -> y_ran x = false) /\
+  (y_kid x = KUserWait \/ y_kid x = KSyncWait -> kid_steps x <> []).
+Proof.
+  intros Hr Hp. pose proof (sinv_reach u s e x Hr) as H. split_inv H. split.
+  - intros Ha. rewrite Ha in I2. rewrite orb_false_r in I2. apply negb_true_iff in I2. exact I2.
+  - intros Hk E. rewrite Hp in I5. destruct Hk as [Hk|Hk]; rewrite Hk, E in I5; discriminate.
 Qed.
 
 (** no deadlock: until the parent has returned, some step is always enabled, and every run of the
